@@ -44,8 +44,8 @@ def gen_case(rng, entry, nops):
     nadd = rng.randint(0, 6)
     for _ in range(nadd):
         ops.append(("add", rng.choice([0, 1, 2, 3, 5, 21, 22, 23]) if rng.random() < 0.9 else rng.choice([-1, 24, 25, 100]),
-                    gen_rule(rng, entry == "config")))
-    if entry != "config":
+                    gen_rule(rng, entry in ("config", "fwconfig"))))
+    if entry not in ("config", "fwconfig"):
         for _ in range(nops):
             x = rng.random()
             if x < 0.15:
@@ -122,7 +122,7 @@ def impl_run(case):
     ops = list(case["ops"])
     cfg = {"hostname": "r", "type": "router"}
     pre = []
-    if entry == "config":
+    if entry in ("config", "fwconfig"):
         acl_cfg = {}
         while ops and ops[0][0] == "add":
             _, pos, r = ops.pop(0)
@@ -139,12 +139,29 @@ def impl_run(case):
             pre.append(1)
         cfg["acl"] = acl_cfg
     cfg_positions = set(cfg.get("acl", {}))      # from_config pops the key
-    router = Router.from_config(config=cfg)
-    acl = router.acl
-    # the router's two default rules are not part of the case: clear them unless the case placed a rule there
-    for pos in (22, 23):
-        if pos not in cfg_positions:
-            acl.remove_rule(pos)
+    if entry == "fwconfig":
+        # the same rules declared for one of a firewall's six lists (the others declared empty or with a rule of their own)
+        from primaite.simulator.network.hardware.nodes.network.firewall import Firewall
+        lists = ["internal_inbound_acl", "internal_outbound_acl", "dmz_inbound_acl", "dmz_outbound_acl", "external_inbound_acl", "external_outbound_acl"]
+        mine = lists[case.get("fwlist", 0) % 6]
+        fcfg = {"hostname": "fw", "type": "firewall",
+                "ports": {"external_port": {"ip_address": "10.0.3.1", "subnet_mask": "255.255.255.0"},
+                          "internal_port": {"ip_address": "10.0.1.1", "subnet_mask": "255.255.255.0"},
+                          "dmz_port": {"ip_address": "10.0.2.1", "subnet_mask": "255.255.255.0"}},
+                "acl": {l: ({7: {"action": "PERMIT"}} if (i + case.get("fwlist", 0)) % 2 else {}) for i, l in enumerate(lists)}}
+        fcfg["acl"][mine] = dict(cfg["acl"])
+        router = Firewall.from_config(config=fcfg)
+        acl = getattr(router, mine)
+        for pos, r in enumerate(acl.acl):
+            if r is not None and pos not in cfg_positions:
+                acl.remove_rule(pos)
+    else:
+        router = Router.from_config(config=cfg)
+        acl = router.acl
+        # the router's two default rules are not part of the case: clear them unless the case placed a rule there
+        for pos in (22, 23):
+            if pos not in cfg_positions:
+                acl.remove_rule(pos)
     acl.implicit_action = ACLAction[case["implicit"]]
     acl.implicit_rule.action = ACLAction[case["implicit"]]
     out = list(pre)
@@ -294,7 +311,9 @@ def run(ck):
         cases += json.load(open(corpus))
     n = ck.n(240, 2400)
     for i in range(n):
-        cases.append(gen_case(rng, ("api", "request", "config")[i % 3], rng.randint(4, 14)))
+        cases.append(gen_case(rng, ("api", "request", "config", "fwconfig")[i % 4], rng.randint(4, 14)))
+        if cases[-1]["entry"] == "fwconfig":
+            cases[-1]["fwlist"] = rng.randrange(6)
     run_cases(ck, cases, "random")
     if not ck.quick or ck.violations or any(not o["ok"] for o in ck.obligations):
         run_cases(ck, exhaustive_cases(), "exhaustive")
